@@ -490,12 +490,12 @@ fn gen_family(rng: &mut Rng) -> (Vec<String>, Vec<String>, Vec<Vec<&'static str>
     let pre = rng.range_i64(-50, 50);
     // literal contents of the variants (what the string must be when the variant is compiled on its own)
     let contents: Vec<String> = vec![
-        format!("{}\n{}\n{}", l1, l2, l3),          // 1 base
-        format!("{}\r\n{}\r\n{}", l1, l2, l3),    // 2 CRLF
-        format!("{}  \n{}\n{}", l1, l2, l3),         // 3 trailing blanks
-        format!("{}\n\n{}\n{}", l1, l2, l3),       // 4 blank line inside
-        format!("{}\n{}\n{}", l1, lx, l3),          // 5 other content
-        format!("{}\n{}\t\n{}", l1, l2, l3),       // 6 trailing tab
+        format!("{}\\n{}\\n{}", l1, l2, l3),          // 1 base
+        format!("{}\\r\\n{}\\r\\n{}", l1, l2, l3),    // 2 CRLF
+        format!("{}  \\n{}\\n{}", l1, l2, l3),         // 3 trailing blanks
+        format!("{}\\n\\n{}\\n{}", l1, l2, l3),       // 4 blank line inside
+        format!("{}\\n{}\\n{}", l1, lx, l3),          // 5 other content
+        format!("{}\\n{}\\t\\n{}", l1, l2, l3),       // 6 trailing tab
     ];
     let chain: String = contents.iter().enumerate().map(|(i, c)| format!("if s == \"{}\" {{ code = {} }}\n", c, i + 1)).collect();
     let text = |lit: &str, stmt_tail: &str, between: &str| -> String {
